@@ -111,6 +111,20 @@ func (s *Sim) opSend(pr Profile) string {
 	if l.Kind != "v1" && strings.Contains(s.pathOf(src, denom), "/") && false {
 		return ""
 	}
+	if s.R.Intn(3) == 0 {
+		// a voucher with several hops goes back over the lane it arrived on (burn on send) every now and then
+		for a := 0; a < 5; a++ {
+			ch := s.Ch[src]
+			for _, b := range ch.Sim.BankKeeper.GetAllBalances(ch.GetContext(), ch.Addr(a)) {
+				path := s.pathOf(src, b.Denom)
+				hops, _ := splitTrace(path)
+				if len(hops) >= 2 && hops[0][1] == l.Ends[side].ID && b.Amount.IsPositive() {
+					acct, denom, amt = a, b.Denom, 1+int64(s.R.Intn(int(min64(b.Amount.Int64(), 40))))
+					s.C.Inc("multi_hop_voucher_returns")
+				}
+			}
+		}
+	}
 	recv := s.Ch[dst].Addr(s.R.Intn(5)).String()
 	cls := "send-" + l.Kind
 	if s.R.Intn(100) < pr.BadReceiverPct {
@@ -407,6 +421,13 @@ func (s *Sim) opExec() string {
 	return cls + "-" + okS(o)
 }
 
+func min64(a, b int64) int64 {
+	if a < b {
+		return a
+	}
+	return b
+}
+
 func okS(o *kit.Outcome) string {
 	if o == nil {
 		return "nil"
@@ -452,6 +473,9 @@ func (s *Sim) Drain() {
 				if p.Received && p.Terminal == "" && (p.AckV1 != nil || p.AckV2 != nil) {
 					if o := s.Ack(p); o != nil && o.OK() {
 						progress = true
+					} else if o != nil {
+						p.AckRefused++
+						p.AckRefusedLog = clip(o.Log, 200)
 					}
 				}
 			})
@@ -488,6 +512,10 @@ func (s *Sim) EndChecks() {
 			// the packet did time out (destination past the timeout, never received), honest timeout relays with fresh
 			// proofs were refused again and again: the sender can never be refunded
 			s.viol("C32", "timed-out-transfer-cannot-be-refunded", "packet %v timed out on the destination but %d honest timeout relays were refused: %s", p, p.TimeoutRefused, p.TimeoutRefusedLog)
+		}
+		if p.Terminal == "" && p.Received && p.AckRefused >= 3 && p.AckSuccess != nil && !*p.AckSuccess {
+			// the destination answered with an error acknowledgement, honest relays of it (fresh proofs) are refused again and again
+			s.viol("C32", "error-acked-transfer-cannot-be-refunded", "packet %v got an error acknowledgement but %d honest acknowledgement relays were refused: %s", p, p.AckRefused, p.AckRefusedLog)
 		}
 		if p.Refunded > 1 {
 			s.viol("C32", "refunded-twice", "packet %v refunded %d times", p, p.Refunded)
